@@ -1,6 +1,8 @@
 //! C04 — GRL parser round trip.
 //! case := `<stream> <segs> <abstract tokens…>`
-//!   stream   ∈ G (documented grammar) | M:<class> (string literal with a GRL metacharacter; findings stream) | T (raw text probe)
+//!   stream   ∈ G (documented grammar, string literals with arbitrary content) | M:<class> (one string literal with a GRL
+//!              metacharacter in one position — the witnesses of F-C04b, fixed by the literal masking — or a form hit by an
+//!              open finding) | T (raw text probe)
 //!   segs     = hex(seg0),hex(seg1),…  — the file is the concatenation; odd segments are the texts of single rules
 //!              (each is also given to `parse_rule`), even segments are the gaps (whitespace, comments, defmodule blocks)
 //!   abstract = the rule list that was rendered, prefix notation (see `Abs` below / Driver/C04.lean); `?` for probes
@@ -670,6 +672,12 @@ const STR_SAFE: [&str; 24] = [
     "active", "gold", "US", "hello world", "a b  c", "New York", "x_1", "", "pending", "2025-11-20", "http://example.com/a", "/* not a comment */", "50% off",
     "it's", "say \"hi\"", "é", "日本語", "🚨 ALERT", "naïve café", "a.b", "rule x", "when", "<tag>", "a // b",
 ];
+/// string literal bodies with GRL metacharacters / keywords: opaque to the parser since the literal masking (F-C04b)
+const STR_META: [&str; 42] = [
+    "a}b", "}", "{x}", "{", "a && b", "&&", "a || b", "||", "go then stop", "if x then y", " then ", "(", "a)", ":-(", "((", "a;b", ";", "a=b", "x == y",
+    "Hello, world", ",", "a += b", "+=", "rule \"x\" { when a then b; }", "rule y {", "salience 99", "no-loop", "when x", "exists(a)", "!x", "defmodule M { export: all }",
+    "[1, 2]", "a != b && c", "x > 1", "f(x) == 2", "key=value", "\u{1}0\u{2}", "\u{1}1\u{2} \u{1}+0\u{2}", "\u{1}41_\u{2}", "\u{1}", "_\u{2}", "don't } stop",
+];
 fn path(rng: &mut Rng) -> String {
     let mut s = format!("{}.{}", pk(rng, &OBJS), pk(rng, &FIELDS));
     if rng.chance(1, 5) {
@@ -682,7 +690,7 @@ fn path2(rng: &mut Rng) -> String {
     format!("{}.{}", pk(rng, &OBJS), pk(rng, &FIELDS))
 }
 fn g_str(rng: &mut Rng) -> Lit {
-    let s = pk(rng, &STR_SAFE).to_string();
+    let s = if rng.chance(1, 3) { pk(rng, &STR_META).to_string() } else { pk(rng, &STR_SAFE).to_string() };
     let q = if s.contains('"') {
         '\''
     } else if s.contains('\'') {
@@ -806,7 +814,7 @@ fn g_cond(rng: &mut Rng, depth: u32) -> Cond {
     }
 }
 fn simple_name(rng: &mut Rng) -> String {
-    pk(rng, &["next-rule", "validation", "wf_1", "Phase 2", "g", "étape", "discounts"]).to_string()
+    pk(rng, &["next-rule", "validation", "wf_1", "Phase 2", "g", "étape", "discounts", "a, b", "x=y; z", "p) q"]).to_string()
 }
 fn g_stmt(rng: &mut Rng) -> Stmt {
     match rng.below(16) {
@@ -818,12 +826,7 @@ fn g_stmt(rng: &mut Rng) -> Stmt {
         6 => Stmt::Append(path(rng), g_scalar(rng)),
         7..=9 => {
             let n = rng.below(4);
-            let args = (0..n)
-                .map(|_| match g_scalar(rng) {
-                    Lit::Str(q, s) if s.contains(',') || s.contains('=') => Lit::Str(q, "done :)".into()),
-                    o => o,
-                })
-                .collect();
+            let args = (0..n).map(|_| g_scalar(rng)).collect();
             Stmt::Call(pk(rng, &ACTFUNCS).to_string(), args)
         }
         10 => Stmt::Retract(pk(rng, &OBJS).to_string()),
@@ -834,11 +837,14 @@ fn g_stmt(rng: &mut Rng) -> Stmt {
     }
 }
 const DATES: [&str; 6] = ["2025-12-01", "2024-02-29", "1999-12-31T23:59:59Z", "2025-12-31T10:00:00+07:00", "2030-01-15T08:30:00", "31-12-2025"];
-const DESCS: [&str; 8] = ["Age verification rule", "uses salience 99 here", "no-loop", "lock-on-active true", "rule x applies when y then z", "décrit la règle", "a // b", "x; y"];
+const DESCS: [&str; 14] = [
+    "Age verification rule", "uses salience 99 here", "no-loop", "lock-on-active true", "rule x applies when y then z", "décrit la règle", "a // b", "x; y",
+    "uses {braces}", "it's } here", "{", "rule z { when a then b; }", "agenda-group 'x'", "/* c */ { }",
+];
 fn g_rule(rng: &mut Rng, idx: usize, depth: u32) -> RuleA {
     let quoted = rng.chance(2, 3);
     let name = if quoted {
-        format!("{}{}", pk(rng, &["Check Age", "R", "règle", "Default Rule", "rule two", "a-b", "salience 5", "x.y", "日本"]), idx)
+        format!("{}{}", pk(rng, &["Check Age", "R", "règle", "Default Rule", "rule two", "a-b", "salience 5", "x.y", "日本", "a{b}", "x } y", "when a then b", "it's"]), idx)
     } else {
         format!("{}{}", pk(rng, &["CheckAge", "R", "_r", "myrule", "Rule_", "whenX"]), idx)
     };
@@ -854,7 +860,7 @@ fn g_rule(rng: &mut Rng, idx: usize, depth: u32) -> RuleA {
     } else {
         None
     };
-    let grp = |rng: &mut Rng| pk(rng, &["validation", "g", "Phase 2", "no-loop", "salience 7", "étape"]).to_string();
+    let grp = |rng: &mut Rng| pk(rng, &["validation", "g", "Phase 2", "no-loop", "salience 7", "étape", "g{1}", "a } b", "it's"]).to_string();
     RuleA {
         name,
         quoted,
@@ -903,7 +909,8 @@ fn base_rule(rng: &mut Rng) -> RuleA {
         stmts: vec![Stmt::Set("User.ok".into(), Lit::Bool(true))],
     }
 }
-/// one string literal with a GRL metacharacter (or a form hit by a `rexile` quirk) in one position: the findings stream
+/// one string literal with a GRL metacharacter in one position (the F-C04b witnesses: must pass since the literal masking),
+/// or a form hit by an open finding (wfdata, method, firstvar)
 fn g_meta(rng: &mut Rng) -> (String, RuleA) {
     let mut r = base_rule(rng);
     let classes = ["rbrace", "and", "or", "then", "paren", "semicolon", "calleq", "callcomma", "pluseq", "wfdata", "method", "firstvar", "lbrace-header"];
@@ -1067,11 +1074,42 @@ fn corpus() -> Vec<String> {
             r.cond = x1.clone();
             r.stmts = vec![Stmt::Call("println".into(), vec![Lit::Str('"', "done :)".into())])];
         })),
+        // F-C04b string literals are opaque (literal masking): every metacharacter at once, in every position
+        one("G", "rule \"a{b}\" \"desc { x }\" salience 4 agenda-group \"g{1}\" { when X == 'it\"s }' then Y = \"it's\"; }", base(&|r| {
+            r.name = "a{b}".into();
+            r.salience = Some(4);
+            r.ag = Some("g{1}".into());
+            r.cond = Cond::Atom(Atom::Cmp("X".into(), "==", Lit::Str('\'', "it\"s }".into())));
+            r.stmts = vec![Stmt::Set("Y".into(), Lit::Str('"', "it's".into()))];
+        })),
+        one("G", "rule \"A\" { when User.tier == \"go}ld && (x || then ; y\" then User.msg = \"a;b += c = d, e {\"; log(\"a=b, c\"); sendEmail(\"Hello, world\", 1); }", base(&|r| {
+            r.cond = Cond::Atom(Atom::Cmp("User.tier".into(), "==", Lit::Str('"', "go}ld && (x || then ; y".into())));
+            r.stmts = vec![
+                Stmt::Set("User.msg".into(), Lit::Str('"', "a;b += c = d, e {".into())),
+                Stmt::Log(Lit::Str('"', "a=b, c".into())),
+                Stmt::Call("sendEmail".into(), vec![Lit::Str('"', "Hello, world".into()), Lit::Int(1)]),
+            ];
+        })),
+        // a literal that looks like a placeholder, non-ASCII bodies
+        one("G", "rule \"A\" { when X == \"\u{1}1\u{2}\" then Y = \"é日本🚨\"; }", base(&|r| {
+            r.cond = Cond::Atom(Atom::Cmp("X".into(), "==", Lit::Str('"', "\u{1}1\u{2}".into())));
+            r.stmts = vec![Stmt::Set("Y".into(), Lit::Str('"', "é日本🚨".into()))];
+        })),
+        // a defmodule block / a rule inside a literal (parse_with_modules must not cut it out)
+        one("G", "rule \"A\" { when X == \"defmodule M { export: all }\" then Y = 'rule \"x\" { when a then b; }'; }", base(&|r| {
+            r.cond = Cond::Atom(Atom::Cmp("X".into(), "==", Lit::Str('"', "defmodule M { export: all }".into())));
+            r.stmts = vec![Stmt::Set("Y".into(), Lit::Str('\'', "rule \"x\" { when a then b; }".into()))];
+        })),
+        // an apostrophe inside a comment does not open a literal
+        one("G", "rule \"A\" { when X == 1 // don't\n then /* it's */ Y = \"a}b\"; }", base(&|r| {
+            r.cond = x1.clone();
+            r.stmts = vec![Stmt::Set("Y".into(), Lit::Str('"', "a}b".into()))];
+        })),
         // empty file, comment-only file
         "G - 0".to_string(),
         format!("G {} 0", hex("// nothing here: rule x { }\n/* rule y { when a then b } */\n")),
     ];
-    // one witness per open finding
+    // one witness per M class (the former F-C04b witnesses and the open findings)
     for c in 0..200 {
         let (tag, r) = g_meta(&mut rng);
         if !out.iter().any(|l: &String| l.starts_with(&format!("{} ", tag))) {
